@@ -37,9 +37,9 @@ TRUSTED = [
 	'the parts the model does not contain answer needsOracle: zlib decompression, email.header.decode_header, the idna codec - for those inputs only the oracle on the real code speaks',
 	'interpreter stack depth and running time are measured, not proved: the oracle runs deep inputs under a lowered recursion limit and checks that numeric content does not drive the work',
 ]
-ASSUMPTIONS = ['the ClientStateMachine needs its .request attribute set by the caller before parse() (API precondition)']
+ASSUMPTIONS = ['the ClientStateMachine needs its .request attribute set by the caller before parse() (API precondition)', 'a status raised by parse() ends the history: the state machine is not fed again after an error (DESIGN.md 6.2)']
 RULE = ('grammar-aware mutations of valid requests/responses with a token dictionary (invalid escapes, over-long UTF-8, "=?" look-alikes, C0/8-bit octets, unknown/unimplemented codings, corrupt and valid gzip/deflate bodies, absurd lengths, Host forms, RFC 2231 continuations) '
-	'x fragmentations; every token and every codec name as value / parameter / list member of every field the parser consults; work bound: long runs with hostile tails in every regex-validated position, each parse under a wall-clock budget in a child interpreter; deep inputs (thousands of tiny chunks / header lines / pipelined messages / trailers) under a lowered recursion limit; huge numerals; non-trivial = an HTTP error or a delivery; distinct by outcome line')
+	'x fragmentations; absolute-form targets over every scheme name in the URI registry of the tree and 60 well-known ones, in three letter cases; every token and every codec name as value / parameter / list member of every field the parser consults; work bound: long runs with hostile tails in every regex-validated position, each parse under a wall-clock budget in a child interpreter; deep inputs (thousands of tiny chunks / header lines / pipelined messages / trailers) under a lowered recursion limit; huge numerals; non-trivial = an HTTP error or a delivery; distinct by outcome line')
 BATCH = 4000
 
 SEEDS = [
@@ -95,6 +95,13 @@ def cases(rng, tier):
 		combos = rng.sample(combos, 6000)
 	for f, t, tm, b in combos:
 		yield ('s', 'server', b % (f, tm % t), ((),))
+	# every scheme name the URI registry knows on this tree, and the well-known ones it may learn, as absolute-form targets
+	import httoop.uri
+	live = {k.decode('latin-1') for k in httoop.uri.URI.SCHEMES}
+	for sc in sorted(set(SCHEME_NAMES) | live):
+		for form in (b'%s://h/p', b'%s://h:1/', b'%s:opaque', b'%s:/p', b'%s://u@h/?q#f', b'%s://[::1]/'):
+			for name in (sc, sc.upper(), sc.capitalize()):
+				yield ('s', 'server', b'GET ' + form % name.encode() + b' HTTP/1.1\r\nHost: h\r\n\r\n', ((),))
 	# work bound (oracle only): long runs with a hostile tail in every position a regular expression looks at
 	yield ('work', 0 if tier == 'quick' else 1)
 	# depth / size stress (oracle only)
@@ -102,6 +109,9 @@ def cases(rng, tier):
 		yield ('deep', kind, 3000 if tier == 'quick' else 40000)
 
 
+SCHEME_NAMES = ('http', 'https', 'ws', 'wss', 'ftp', 'ftps', 'sftp', 'file', 'mailto', 'urn', 'data', 'ldap', 'ldaps', 'imap', 'imaps', 'pop', 'pop3', 'smtp', 'nfs', 'mms', 'git', 'ssh',
+	'git+ssh', 'svn', 'svn+ssh', 'telnet', 'gopher', 'news', 'nntp', 'rtsp', 'sip', 'sips', 'tel', 'irc', 'ircs', 'dav', 'dns', 'about', 'blob', 'javascript', 'h2', 'h2c', 'coap', 'mqtt',
+	'amqp', 'redis', 's3', 'jdbc', 'magnet', 'tag', 'view-source', 'ws+unix', 'http+unix', 'unix', 'rsync', 'smb', 'afp', 'xmpp', 'webcal', 'geo', 'cid', 'mid')
 FIELDS = [b'Host', b'Content-Type', b'Content-Length', b'Transfer-Encoding', b'Trailer', b'Connection', b'Upgrade', b'HTTP2-Settings', b'Content-Encoding', b'X-Foo', b'Accept', b'Cookie', b'Content-Disposition']
 TEMPLATES = [b'%s', b'a; %s', b'"%s"', b'a, %s', b'a; x=%s']
 BASES = [b'POST / HTTP/1.1\r\nHost: h\r\n%s: %s\r\nContent-Length: 1\r\n\r\nx',
